@@ -14,12 +14,20 @@ tie    : (a) harness/c04.cpp calls BOTH overloads of the real compute_shortest_d
          of property C16 / the binary heap of libstdc++ (Dijkstra_PQC_Model.v) — every graph, ties included;
          informational, a disagreement only enlarges the search.
          (b) the real text of IsomapImplementation::embed() / LandmarkIsomapImplementation::embed() runs with
-         `compute_shortest_distances_matrix(` and `eigendecomposition_via(` wrapped by recording macros: the
-         neighbours tapkee found, the geodesics it computed and the matrix it handed to the eigensolver are
-         captured; geodesics go through the same extracted spec, the handed matrix must EXACTLY equal the
-         extracted -1/2 J S J (check_mds; N a power of two, integer lattice points, L1 metric) and the extracted
-         model of the statements; the returned embedding is compared (tolerance stream, 1e-8) with the top-d
-         eigenpairs of that matrix computed by Eigen's SelfAdjointEigenSolver whose contract is validated.
+         `find_neighbors_with(`, `compute_shortest_distances_matrix(` and `eigendecomposition_via(` wrapped by
+         recording macros: the neighbours tapkee found, the geodesics it computed (when that call is made) and the
+         matrix it handed to the eigensolver are captured.  Wave 4: the verdict is END TO END and independent of the
+         wrapped geodesic call — on the neighbourhood graph tapkee built, the MODEL geodesics (extracted Bellman-Ford
+         specification) give the extracted -1/2 J S J (mds_ref_exec; theorem isomap_pipeline_is_mds_of_shortest_paths);
+         the handed matrix must EXACTLY equal it (check_mds; N a power of two, integer tables) and the returned
+         embedding is compared (tolerance stream, 1e-8) with the top-d eigenpairs of the model's matrix computed by
+         Eigen's SelfAdjointEigenSolver whose contract is validated; captured geodesics additionally go through the
+         extracted spec.  Inputs: L1 lattice points with k = 3..6, AND the special configurations k = N-1 / N-2 /
+         k doubled up to N-1 by the connectivity check (lone outlier) TOGETHER with legal non-metric callbacks
+         (squared Euclidean, asymmetric surcharges, arbitrary tables), all three neighbour-search methods.
+         (a') wave 4: the direct calls of (a) also on complete graphs k = N-1 / N-2 with those non-metric tables and
+         neighbour lists in nearest-first / farthest-first / arbitrary / index order; and the 3-thread configuration of
+         EVERY case reaches the routine by another C++ route (samples in a std::deque, object ids != positions).
          (c) model-guided generation: candidate graphs are screened through the extracted concrete-heap model
          (dk_class: which heap situation every decrease_key call meets) and the ones with the rare situations
          (a non-minimal ROOT lowered below the minimum, a child cut below the minimum, ...) are added to every run;
@@ -75,8 +83,18 @@ TRUSTED = [
     "assume B V = V diag(L), V^T V = I, V V^T = I, L ascending, s^2 = max(lambda,0); the harness validates these "
     "(1e-8) on every decomposition it observes; the embedding comparison itself is a tolerance test; matrix algebra "
     "theorems are over an abstract field / Qc, not binary64",
-    "harness macros wrapping `compute_shortest_distances_matrix(` and `eigendecomposition_via(` inside "
-    "methods/isomap.hpp and methods/landmark_isomap.hpp record and forward (harness/c04.cpp)",
+    "harness macros wrapping `find_neighbors_with(`, `compute_shortest_distances_matrix(` and "
+    "`eigendecomposition_via(` inside methods/isomap.hpp and methods/landmark_isomap.hpp record and forward "
+    "(harness/c04.cpp).  The verdict on Isomap::embed() does not depend on the geodesic call being visible: the "
+    "neighbourhood graph is what find_neighbors_with returned (else the complete graph when k >= N-1 was requested), "
+    "the geodesics are the MODEL's (extracted Bellman-Ford specification on that graph; "
+    "isomap_pipeline_is_mds_of_shortest_paths), and both the handed matrix (exactly) and the returned embedding "
+    "(tolerance, Eigen oracle on the model's matrix) are compared with classical MDS of them",
+    "the neighbourhood graph itself (which samples find_neighbors returns, its connectivity doubling) is taken as "
+    "observed: properties C02 / C03",
+    "second C++ route (command SPD): the 3-thread configuration of every direct call passes the samples in a "
+    "std::deque whose elements are object ids different from their positions; other containers / iterator adaptors "
+    "are not exercised",
     "extraction (ExtrOcamlBasic only) + OCaml 4.13.1 + coq/extract/c04_driver.ml (parsing/printing)",
     "g++ ASan/UBSan/_GLIBCXX_ASSERTIONS as memory-safety observer of the real runs",
     "multiplication of a weight table by 2^e, |e| <= 70 + 53, is exact in binary64 (no overflow / underflow: all "
@@ -970,7 +988,9 @@ def evaluate_sp(ctx, exes, cases, stats, shrink=True):
                 why = ("compute_shortest_distances_matrix (%s overload; configurations %s) is not the shortest-path "
                        "matrix: %s%s%s" % ("first" if (prob or not ok_full) else "landmark",
                                            ", ".join(("%s/1 thread traced" % k[0]) if k[1] == "trace" else
-                                                     ("%s/%s threads" % k) for k in which), detail,
+                                                     ("%s/%s threads%s" % (k[0], k[1], " via std::deque + object ids"
+                                                                            if k[1] == ROUTE_DEQUE_THREADS else ""))
+                                                     for k in which), detail,
                                            (" (lengths in units of 2^%d)" % -s) if (s := c.get("scale", 0)) else "",
                                            ("; clauses broken: " + "; ".join(broken)) if broken else ""))
                 cc = c
@@ -1204,6 +1224,16 @@ def gen_iso_special(rng, n_exact, n_tol):
             k = N - 1 if mode != "N-2" else max(3, N - 2)
         T = dissimilarity_table(rng, pts, kind)
         sym = all(T[a][b] == T[b][a] for a in range(N) for b in range(a))
+        if not exact and N >= 6 and i % 2 == 1:
+            # Landmark Isomap at the same special configurations (its geodesic call is judged against the
+            # specification on the graph tapkee built; landmark_ratio 1 = every sample a landmark)
+            ratio = rng.choice([1.0, 0.5])
+            cases.append({"kind": "iso", "meth": "liso", "gen": "liso:special " + mode,
+                          "nm": rng.choice(["brute", "vptree", "covertree"]) if sym else "brute",
+                          "em": "dense", "k": k, "d": 1, "ratio": ratio, "seed": rng.randrange(1 << 30), "N": N,
+                          "T": T, "exact": False, "threads": rng.choice(THREADS), "mag": iso_mag(rng),
+                          "table": kind})
+            continue
         cases.append({"kind": "iso", "meth": "iso", "gen": "iso:special " + mode,
                       "nm": rng.choice(["brute", "vptree", "covertree"]) if sym else "brute",
                       "em": "dense", "k": k, "d": rng.randint(1, max(1, min(2, N - 2))),
@@ -1711,7 +1741,7 @@ def run(ctx):
     if quick:
         cases += gen_sp_cases(rng, 260, sizes, big=(48, 64))
         cases += gen_complete_cases(rng, 40)
-        iso_cases = gen_iso_cases(rng, 24, 8, 16) + gen_iso_special(rng, 14, 4)
+        iso_cases = gen_iso_cases(rng, 24, 8, 16) + gen_iso_special(rng, 14, 6)
     else:
         cases += gen_sp_cases(rng, 2000, sizes * 2 + [40, 48, 64], big=(64, 96, 128))
         cases += enum_small_cases()
